@@ -22,6 +22,7 @@ type namedRep struct {
 func repPool(r *rand.Rand, abstract []*secp256k1.Point, nz int) []namedRep {
 	var out []namedRep
 	zs := []*big.Int{big.NewInt(1), big.NewInt(2), add(bigP, -1)}
+	zs = append(zs, montPatternValues(r, bigP)[:4]...) // Z whose internal limbs are structured (all low halves zero, a single limb set)
 	for i, a := range abstract {
 		for k := 0; k < nz; k++ {
 			var z *big.Int
@@ -56,7 +57,7 @@ func drivePoint(c *ctx) {
 		secp256k1.NewIdentityPoint().VerifMulBeta(R1), secp256k1.NewIdentityPoint().VerifMulBeta(secp256k1.NewIdentityPoint().VerifMulBeta(R1)),
 		neg(secp256k1.NewIdentityPoint().VerifMulBeta(R1)),
 	}
-	pool := repPool(r, abstract, c.scale(4, 6))
+	pool := repPool(r, abstract, c.scale(6, 8))
 
 	junk := func() *secp256k1.Point { return rep(mulG(randBig(r, bigN)), add(randBig(r, add(bigP, -1)), 1)) }
 
